@@ -30,6 +30,7 @@ structure SymInfo where
   isDeclaredGlobal : Bool
   isNonlocal : Bool
   isFree : Bool
+  isImported : Bool := false
   deriving Repr, Inhabited
 
 /-- `other_`: symbol tables that are neither (annotation scopes, type aliases, type parameters);
@@ -107,7 +108,7 @@ end Nsp
 def ownsName (outer : SymScope) (x : String) : Except Err Bool :=
   match outer.lookup x with
   | none => .error (.keyError x)
-  | some s => .ok (s.isAssigned || (s.isParameter && !s.isGlobal))
+  | some s => .ok (s.isAssigned || s.isImported || (s.isParameter && !s.isGlobal))
 
 /-- The enclosing scopes of a namespace, innermost first, as (kind, symtable, dict name). -/
 abbrev Stack := List (ScopeKind × SymScope × String)
